@@ -268,3 +268,146 @@ Proof.
   exists v. unfold flatten_unmangle. rewrite Hv, T. rewrite app_nil_r in P. rewrite P.
   repeat split; [exact R|]. intros A. apply N. unfold any_set. now rewrite A.
 Qed.
+
+(* ---------- flatten's leaf order is the order of the dialsfieldpath tags ----------
+   paths_ty / names_ty enumerate, depth first (the order of leaves_ty and
+   read_ty), the path of every leaf (all field names from the root, embedded
+   ones included) and its name components (embedded ones left out). *)
+Fixpoint paths_ty (path : list str) (t : ty) : list (list str) :=
+  match t with
+  | TPtr (TStruct fs _) => paths_fields path fs
+  | _ => [path]
+  end
+with paths_fields (path : list str) (fs : fields) : list (list str) :=
+  match fs with
+  | FNil => []
+  | FCons n _ _ t r => paths_ty (path ++ [n]) t ++ paths_fields path r
+  end.
+
+Fixpoint names_ty (names : list str) (t : ty) : list (list str) :=
+  match t with
+  | TPtr (TStruct fs _) => names_fields names fs
+  | _ => [names]
+  end
+with names_fields (names : list str) (fs : fields) : list (list str) :=
+  match fs with
+  | FNil => []
+  | FCons n _ an t r => names_ty (if an then names else names ++ [n]) t ++ names_fields names r
+  end.
+
+Lemma tag_replace_fst k v t : map fst (fst (tag_replace k v t)) = map fst t.
+Proof.
+  induction t as [|[k' v'] r IH]; simpl; [reflexivity|].
+  destruct (tag_replace k v r) as [r' f]. simpl in *. destruct (str_eqb k k'); simpl; now rewrite IH.
+Qed.
+
+Lemma tag_lookup_replace k v t : snd (tag_replace k v t) = true ->
+  tag_lookup k (fst (tag_replace k v t)) = Some v.
+Proof.
+  induction t as [|[k' v'] r IH]; simpl; [discriminate|].
+  destruct (tag_replace k v r) as [r' f] eqn:R. simpl in *.
+  destruct (str_eqb k k') eqn:E; simpl; rewrite E; [reflexivity|]. auto.
+Qed.
+
+Lemma tag_lookup_absent k v t : snd (tag_replace k v t) = false -> tag_lookup k (t ++ [(k, v)]) = Some v.
+Proof.
+  induction t as [|[k' v'] r IH]; simpl.
+  - intros _. now rewrite str_eqb_refl.
+  - destruct (tag_replace k v r) as [r' f] eqn:R. simpl in *.
+    destruct (str_eqb k k') eqn:E; simpl; [discriminate|]. auto.
+Qed.
+
+Lemma tag_get_set k v t : tag_get k (tag_set k v t) = v.
+Proof.
+  unfold tag_get, tag_set. destruct (tag_replace k v t) as [t' f] eqn:R. destruct f.
+  - pose proof (tag_lookup_replace k v t) as L. rewrite R in L. simpl in L. now rewrite L.
+  - pose proof (tag_lookup_absent k v t) as L. rewrite R in L. simpl in L. now rewrite L.
+Qed.
+
+Definition fieldpath_of (o : sfield) : str := tag_get dialsfieldpath (sf_tags o).
+
+Lemma fl_get_tag_path tag te n tg an prefix path nt :
+  fl_get_tag tag te n tg an prefix path = Ok nt ->
+  tag_get dialsfieldpath (fst nt) = join_s [comma] path.
+Proof.
+  unfold fl_get_tag. intros H. dob H tgs Ht. inversion H; subst. simpl. apply tag_get_set.
+Qed.
+
+Lemma fl_order tag ne te :
+  (forall t names tgs path full newtag outs,
+      wf_ty full = true ->
+      (t = full \/ (full = TPtr t /\ match t with TPtr _ => False | _ => True end)) ->
+      tag_get dialsfieldpath newtag = join_s [comma] path ->
+      fl_ty tag ne te names tgs path full newtag t = Ok outs ->
+      map fieldpath_of outs = map (join_s [comma]) (paths_ty path full) /\
+      map sf_name outs = map (encode_by ne) (names_ty names full)) /\
+  (forall fs names tgs path outs,
+      wf_fields fs = true ->
+      fl_fields tag ne te names tgs path fs = Ok outs ->
+      map fieldpath_of outs = map (join_s [comma]) (paths_fields path fs) /\
+      map sf_name outs = map (encode_by ne) (names_fields names fs)).
+Proof.
+  assert (LEAF : forall t names tgs path full newtag outs,
+             wf_ty full = true ->
+             (t = full \/ (full = TPtr t /\ match t with TPtr _ => False | _ => True end)) ->
+             match t with TPtr _ | TStruct _ _ => False | _ => True end ->
+             tag_get dialsfieldpath newtag = join_s [comma] path ->
+             fl_ty tag ne te names tgs path full newtag t = Ok outs ->
+             map fieldpath_of outs = map (join_s [comma]) (paths_ty path full) /\
+             map sf_name outs = map (encode_by ne) (names_ty names full)).
+  { intros t names tgs path full newtag outs W Sh Ht Hp H.
+    assert (outs = [SF (encode_by ne names) newtag false full]) as ->
+      by (destruct t; try contradiction; simpl in H; inversion H; reflexivity).
+    assert (paths_ty path full = [path] /\ names_ty names full = [names]) as [-> ->].
+    { destruct Sh as [<- | [-> _]]; destruct t; try contradiction; split; reflexivity. }
+    simpl. unfold fieldpath_of. simpl. now rewrite Hp. }
+  apply ty_fields_ind.
+  - intros; eapply LEAF; [eassumption | | | eassumption | eassumption]; [eassumption | exact I].
+  - intros; eapply LEAF; [eassumption | | | eassumption | eassumption]; [eassumption | exact I].
+  - intros e IH names tgs path full newtag outs W Sh Hp H.
+    destruct Sh as [Sh | [_ F]]; [| contradiction]. subst full. simpl in H.
+    eapply IH; [exact W | | exact Hp | exact H].
+    right. split; [reflexivity|]. destruct e; simpl in W; try discriminate; exact I.
+  - intros; eapply LEAF; [eassumption | | | eassumption | eassumption]; [eassumption | exact I].
+  - intros; eapply LEAF; [eassumption | | | eassumption | eassumption]; [eassumption | exact I].
+  - intros; eapply LEAF; [eassumption | | | eassumption | eassumption]; [eassumption | exact I].
+  - intros fs IH nm names tgs path full newtag outs W Sh Hp H.
+    destruct Sh as [Sh | [Sh _]]; subst full; simpl in W; [discriminate|]. simpl in H.
+    simpl. eapply IH; eassumption.
+  - intros; eapply LEAF; [eassumption | | | eassumption | eassumption]; [eassumption | exact I].
+  - intros; eapply LEAF; [eassumption | | | eassumption | eassumption]; [eassumption | exact I].
+  - intros; eapply LEAF; [eassumption | | | eassumption | eassumption]; [eassumption | exact I].
+  - intros names tgs path outs _ H. simpl in H. inversion H. split; reflexivity.
+  - intros n tg an t IHt r IHr names tgs path outs W H.
+    rewrite (fl_fields_cons tag te) in H. simpl in W.
+    apply andb_true_iff in W as [W Wr]. apply andb_true_iff in W as [W Wan].
+    apply andb_true_iff in W as [Wex Wt].
+    dob H nt Hnt. dob H a Ha. dob H b Hb. inversion H; subst.
+    destruct (IHt _ _ _ t (fst nt) a Wt (or_introl eq_refl) (fl_get_tag_path _ _ _ _ _ _ _ _ Hnt) Ha) as [A1 A2].
+    destruct (IHr _ _ _ b Wr Hb) as [B1 B2].
+    simpl. rewrite !map_app, A1, A2, B1, B2. split; reflexivity.
+Qed.
+
+(* Mangle of one field: the i-th flattened field carries the path of the i-th
+   leaf (depth first) in its dialsfieldpath tag, its name is the encoding of
+   the leaf's name components, its type the leaf's declared type *)
+Theorem flatten_order_l : forall tag ne te f outs,
+  wf_sf f = true -> flatten_mangle tag ne te f = Ok outs ->
+  map fieldpath_of outs = map (join_s [comma]) (paths_ty [sf_name f] (sf_ty f)) /\
+  (under_is_struct (sf_ty f) = true ->
+   map sf_name outs = map (encode_by ne) (names_ty (if sf_anon f then [] else [sf_name f]) (sf_ty f))) /\
+  (under_is_struct (sf_ty f) = false -> map sf_name outs = [encode_by ne [sf_name f]]).
+Proof.
+  intros tag ne te f outs W H. destruct (wf_sf_parts f W) as (Wn & Wt & Wa).
+  rewrite flatten_mangle_wf in H by exact Wt. dob H nt Hnt.
+  pose proof (fl_get_tag_path _ _ _ _ _ _ _ _ Hnt) as Hp.
+  destruct (under_is_struct (sf_ty f)) eqn:U.
+  - destruct (proj1 (fl_order tag ne te) _ _ _ _ (sf_ty f) (fst nt) outs Wt (or_introl eq_refl) Hp H) as [A1 A2].
+    repeat split; auto. discriminate.
+  - inversion H; subst. simpl. unfold fieldpath_of. simpl. rewrite Hp.
+    destruct (wf_leaf_or_struct (sf_ty f) Wt) as [(_ & _ & _) | (fs & nm & E & _)].
+    + assert (paths_ty [sf_name f] (sf_ty f) = [[sf_name f]]) as ->.
+      { destruct (sf_ty f) as [| |e| | | | | | |]; try reflexivity. destruct e; try reflexivity. simpl in U. discriminate. }
+      repeat split; auto. discriminate.
+    + rewrite E in U. discriminate.
+Qed.
